@@ -290,9 +290,25 @@ pub fn frame_at(s: &[u8]) -> Framed {
 // ------------------------------------------------------------------------------------------------
 // decoder
 
+/// positions of length-bearing / identifying fields met while decoding (offsets within the body)
+#[derive(Debug, Clone, Copy, PartialEq, Eq)]
+pub enum Mark {
+    /// two-byte length prefix of a string/binary at this offset
+    Len16(usize),
+    /// variable byte integer at offset, encoded in n bytes
+    Vbi(usize, usize),
+    /// packet identifier at offset
+    Id(usize),
+    /// single significant byte (reason code, flags, option byte, property id)
+    Byte(usize),
+    /// a whole property (start, end)
+    PropSpan(usize, usize),
+}
+
 struct Rd<'a> {
     b: &'a [u8],
     p: usize,
+    marks: Vec<Mark>,
 }
 impl<'a> Rd<'a> {
     fn left(&self) -> usize {
@@ -303,6 +319,10 @@ impl<'a> Rd<'a> {
         self.p += 1;
         Ok(v)
     }
+    fn mbyte(&mut self) -> Result<u8, String> {
+        self.marks.push(Mark::Byte(self.p));
+        self.u8()
+    }
     fn u16(&mut self) -> Result<u16, String> {
         Ok(((self.u8()? as u16) << 8) | self.u8()? as u16)
     }
@@ -310,6 +330,7 @@ impl<'a> Rd<'a> {
         Ok(((self.u16()? as u32) << 16) | self.u16()? as u32)
     }
     fn id(&mut self, idw: usize) -> Result<u32, String> {
+        self.marks.push(Mark::Id(self.p));
         if idw == 2 {
             Ok(self.u16()? as u32)
         } else {
@@ -317,6 +338,7 @@ impl<'a> Rd<'a> {
         }
     }
     fn bin(&mut self) -> Result<Vec<u8>, String> {
+        self.marks.push(Mark::Len16(self.p));
         let n = self.u16()? as usize;
         if self.left() < n {
             return Err("truncated string/binary".into());
@@ -332,6 +354,7 @@ impl<'a> Rd<'a> {
     }
     fn vbi(&mut self) -> Result<u32, String> {
         let (v, n) = vbi_decode(&self.b[self.p..])?;
+        self.marks.push(Mark::Vbi(self.p, n));
         self.p += n;
         Ok(v)
     }
@@ -346,10 +369,11 @@ impl<'a> Rd<'a> {
             return Err("property length beyond packet".into());
         }
         let end = self.p + len;
-        let mut sub = Rd { b: &self.b[..end], p: self.p };
+        let mut sub = Rd { b: &self.b[..end], p: self.p, marks: Vec::new() };
         let mut out = Vec::new();
         while sub.p < end {
-            let id = sub.u8()?;
+            let start = sub.p;
+            let id = sub.mbyte()?;
             let ty = prop_type(id).ok_or_else(|| format!("unknown property id {}", id))?;
             let val = match ty {
                 PType::Byte => PVal::Byte(sub.u8()?),
@@ -365,7 +389,9 @@ impl<'a> Rd<'a> {
                 }
             };
             out.push(Prop { id, val });
+            sub.marks.push(Mark::PropSpan(start, sub.p));
         }
+        self.marks.extend(sub.marks);
         self.p = end;
         Ok(out)
     }
@@ -374,13 +400,18 @@ impl<'a> Rd<'a> {
 /// Decode one complete frame (header + length + body) under the given protocol version.
 /// Structural decoding only (what bytes mean); placement/value legality is not judged here.
 pub fn decode(frame: &[u8], ver: Ver, idw: usize) -> Result<Pkt, String> {
+    decode_marks(frame, ver, idw).map(|x| x.0)
+}
+
+/// decode + the positions (relative to the body) of every length field / id / significant byte
+pub fn decode_marks(frame: &[u8], ver: Ver, idw: usize) -> Result<(Pkt, Vec<Mark>), String> {
     let Framed::Frame { first, body_off, total } = frame_at(frame) else {
         return Err("not one complete frame".into());
     };
     if total != frame.len() {
         return Err("trailing bytes after frame".into());
     }
-    let mut r = Rd { b: &frame[body_off..], p: 0 };
+    let mut r = Rd { b: &frame[body_off..], p: 0, marks: Vec::new() };
     let ty = first >> 4;
     let fl = first & 0x0F;
     let need_flags = |want: u8| -> Result<(), String> {
@@ -402,7 +433,7 @@ pub fn decode(frame: &[u8], ver: Ver, idw: usize) -> Result<Pkt, String> {
             if level != if v5 { 5 } else { 4 } {
                 return Err("protocol level".into());
             }
-            let flags = r.u8()?;
+            let flags = r.mbyte()?;
             if flags & 1 != 0 {
                 return Err("reserved connect flag".into());
             }
@@ -430,11 +461,11 @@ pub fn decode(frame: &[u8], ver: Ver, idw: usize) -> Result<Pkt, String> {
         }
         2 => {
             need_flags(0)?;
-            let ack = r.u8()?;
+            let ack = r.mbyte()?;
             if ack > 1 {
                 return Err("connack flags".into());
             }
-            let code = r.u8()?;
+            let code = r.mbyte()?;
             let props = if v5 { r.props()? } else { vec![] };
             Pkt::Connack { ver, sp: ack == 1, code, props }
         }
@@ -459,7 +490,7 @@ pub fn decode(frame: &[u8], ver: Ver, idw: usize) -> Result<Pkt, String> {
             };
             let id = r.id(idw)?;
             let (code, props) = if v5 && r.left() > 0 {
-                let c = r.u8()?;
+                let c = r.mbyte()?;
                 let ps = if r.left() > 0 { Some(r.props()?) } else { None };
                 (Some(c), ps)
             } else {
@@ -474,7 +505,7 @@ pub fn decode(frame: &[u8], ver: Ver, idw: usize) -> Result<Pkt, String> {
             let mut entries = Vec::new();
             while r.left() > 0 {
                 let t = r.str()?;
-                let o = r.u8()?;
+                let o = r.mbyte()?;
                 entries.push((t, o));
             }
             Pkt::Subscribe { ver, id, props, entries }
@@ -513,7 +544,7 @@ pub fn decode(frame: &[u8], ver: Ver, idw: usize) -> Result<Pkt, String> {
         14 => {
             need_flags(0)?;
             let (code, props) = if v5 && r.left() > 0 {
-                let c = r.u8()?;
+                let c = r.mbyte()?;
                 let ps = if r.left() > 0 { Some(r.props()?) } else { None };
                 (Some(c), ps)
             } else {
@@ -527,7 +558,7 @@ pub fn decode(frame: &[u8], ver: Ver, idw: usize) -> Result<Pkt, String> {
             }
             need_flags(0)?;
             let (code, props) = if r.left() > 0 {
-                let c = r.u8()?;
+                let c = r.mbyte()?;
                 let ps = if r.left() > 0 { Some(r.props()?) } else { None };
                 (Some(c), ps)
             } else {
@@ -540,7 +571,7 @@ pub fn decode(frame: &[u8], ver: Ver, idw: usize) -> Result<Pkt, String> {
     if r.left() != 0 {
         return Err("trailing bytes in body".into());
     }
-    Ok(pkt)
+    Ok((pkt, r.marks))
 }
 
 // ------------------------------------------------------------------------------------------------
